@@ -29,4 +29,11 @@ CLAIMED["C01"] = {
 }
 ENGINES.append({"name": "choicetree", "path": "/verif/mc/choicetree.py + /verif/mc/seams.py", "serves_properties": ["C01"],
                 "kind_free_text": "stateless DFS over the answers of scripted random sources (prefix replay, first schedule replayed twice); records the argument of every draw"})
+CLAIMED["C02"] = {
+    "engine": "seqspace+choicetree",
+    "technique": "bounded exhaustive exploration of operator x state-preparation catalogue on every evaluation route, plus exhaustive enumeration of scripted sampler answers for finite shots, vs numpy <psi|H|psi>",
+    "text": "915 operators (all 64 Pauli words on <=3 qubits x 5 real/complex coefficients, 66 word pairs x 9 coefficient pairs, a 5-term operator with identity) x 12 preparations (empty, dense, idle qubits, wider than the operator) x {no, dense} initial vector on cirq; preparations with 1-2 MEASURE gates under every desired outcome string (zero-probability branches must be refused); a third of the product on sympy; exact variance and standard error. Finite shots (n_shots 1,2): the scipy sampler and cirq's samplers are scripted; every sample sequence is explored, the distribution handed to each sampler call must be the exact (post-selected where requested) distribution of the rotated state and the returned estimate / variance / standard error must be the documented arithmetic of the samples. Each route selected by get_expectation_value's branch conditions is reached by at least one family of cases.",
+    "note": "Trusted: numpy reference simulator and Pauli matrices. Not covered: operators with more than 2 non-identity terms (one 5-term case), > 3-4 qubits, n_shots > 2; post-selection with finite shots is only checked for the distributions handed to full-distribution samplers (shot filtering itself is C10).",
+}
+ENGINES[0]["serves_properties"] = ["C01", "C02", "C09"]
 NOT_CLAIMED = {}
